@@ -403,17 +403,28 @@ func isStringDelim(r rune) bool {
 }
 
 func (l *lexer) acceptNumber(ttype int) bool {
+	begin := l.pos
 	accepted := false
+	digits := false
 	for i := 0; ; i++ {
 		r := l.next()
 		sign := ((r == '-' || r == '+') && i == 0)
 		decimal := (r == '.' && i != 0)
 		if !unicode.IsDigit(r) && !sign && !decimal {
 			l.backup()
+			// a number has a digit and ends where the argument ends: "-)" or "12ab"
+			// are unquoted strings, not a number followed by something else
+			if accepted && (!digits || !(r == eof || isStringDelim(r))) {
+				l.pos = begin
+				return false
+			}
 			if accepted {
 				l.emit(ttype)
 			}
 			return accepted
+		}
+		if unicode.IsDigit(r) {
+			digits = true
 		}
 		accepted = true
 	}
